@@ -42,6 +42,13 @@ THEOREMS = [
     "Pydjinni.Front.finishFile_eq_violations_of_fresh",
     "Pydjinni.Front.finishFile_perm_violations",
     "Pydjinni.Front.accepted_iff_no_violation",
+    "Pydjinni.Front.front_eq_violationsOrdered",
+    "Pydjinni.Front.front_accepts_iff",
+    "Pydjinni.Front.front_mem_iff",
+    "Pydjinni.Front.front_single_file",
+    "Pydjinni.Front.front_bindings_lexical",
+    "Pydjinni.Front.cleanCheck_sound",
+    "Pydjinni.Front.front_of_progChecks",
 ]
 LEVEL = "proof"
 
@@ -150,6 +157,12 @@ def run(ctx):
         specreqs.append({**req, "op": "c05.spec", "impl": impl_obs(impl)})
     answers = ctx.driver.batch(reqs)
     specs = ctx.driver.batch(specreqs)
+    # on how many of the inputs do the hypotheses of front_eq_violationsOrdered hold (decided by evaluation)?
+    hyps = ctx.driver.batch([{**q, "op": "c11.hyp"} for q in reqs])
+    ctx.stats["whole_program_theorem_applies"] = sum(1 for h in hyps if h.get("holds"))
+    ctx.stats["whole_program_theorem_not_applicable"] = sum(1 for h in hyps if not h.get("holds"))
+    ctx.obligation("front_eq_violationsOrdered applies (hypotheses evaluated)", ctx.stats["whole_program_theorem_applies"] > 0, "evaluation",
+                   f"{ctx.stats['whole_program_theorem_applies']} of {len(hyps)} inputs (the others: duplicate names, externs, syntax errors, missing files)")
     breaks = []
     for (files, root, dd, meta, impl), m, s in zip(cases, answers, specs):
         mo = front.model_outcome(m)
